@@ -49,6 +49,23 @@ def gen_cases(rng, tier, scale):
         D = jtok(data)
         ops += [f'r 0 {x("main")} {D} -1', f'r 2 {x("main")} {D} -1', f'r 0 {x("ctl")} {jtok({"c": [1, 2]})} -1', f'rt 4 {x(t)} {D} -1']
         cases.append({'line': f'r{k} ' + ' ; '.join(ops), 'kind': 'render', 'tpl': t, 'npre': len(parts) + 2, 'tags': ['render']})
+    # every ill-typed use on its own, against each shape of `a` (array, object, scalar, null, missing), strict on/off:
+    # nothing here depends on what the random generator happens to combine
+    SHAPES = [{'a': [1, 2, 3], 'o': {'k': 1}, 'v': 5}, {'a': {'x': {'y': 1}, '0': 'z'}, 'o': {'k': 1}, 'v': 's'}, {'a': 7, 'o': [], 'v': None},
+              {'a': None, 'o': 1, 'v': [[1]]}, {'o': {}}]
+    EXTRA = ['{{a.[]}}', '{{a.99999999999999999999}}', '{{a.[18446744073709551616]}}', '{{a.[18446744073709551615]}}', '{{#if a.[]}}y{{/if}}',
+             '{{lookup a.99999999999999999999 0}}', '{{#each a}}{{../a.[]}}{{/each}}', '{{#each a as |e|}}{{e.[]}}{{/each}}', '{{a.[ ]}}', '{{a.[+1]}}',
+             '{{a.00}}', '{{a.[1].[2].[3]}}', '{{../a}}', '{{../../a}}', '{{#with o}}{{../../a}}{{/with}}', '{{> pz}}']
+    kf = 0
+    for item in ILL + EXTRA:
+        for sh in SHAPES:
+            st = kf % 2
+            parts = {'p1': 'x', 'p2': item, 'pz': '{{../name}}{{../../a}}'}
+            ops = ([f'strict 1'] if st else []) + [f'regs {x(n_)} {x(s_)}' for n_, s_ in parts.items()] + [f'regs {x("ctl")} {x(control)}', f'regs {x("main")} {x(item)}']
+            D = jtok(sh)
+            ops += [f'r 0 {x("main")} {D} -1', f'r 2 {x("main")} {D} -1', f'r 0 {x("ctl")} {jtok({"c": [1, 2]})} -1', f'rt 4 {x(item)} {D} -1']
+            cases.append({'line': f'il{kf} ' + ' ; '.join(ops), 'kind': 'render', 'tpl': item, 'npre': len(parts) + 2, 'tags': ['ill-typed-alone']})
+            kf += 1
     # indented standalone partial calls whose chunks (raw text, values) begin/end with multi-byte characters,
     # line breaks, or are empty: the byte-slicing paths of the indenting writer
     UNI = ['Zoë', '10 €', '€', 'é\nü', '日本\n', '\n', '', '\U0001F600', 'a\r\nß', 'x']
